@@ -32,6 +32,9 @@ DIRECTED = [
     # a factory that hands the call on to another family (Helmholtz hypersingular with a purely imaginary wavenumber -> modified Helmholtz)
     [("mutate_params", 0, ["reg", 1]), ("create", 1, ["mhyp", "P"]), ("weak_form", 1, []), ("create", 2, ["mhyp", "G"]), ("weak_form", 2, []), ("strong_form", 1, [])],
     [("mutate_params", 0, ["sing", 3]), ("create", 1, ["mhyp", "P"]), ("set_global", 0, ["sing", 3]), ("mutate_params", 0, ["sing", 4]), ("weak_form", 1, [])],
+    # only the singular order changes between two operators on the same spaces (regular unchanged)
+    [("create", 1, ["slp", "G"]), ("weak_form", 1, []), ("set_global", 0, ["sing", 3]), ("create", 2, ["slp", "G"]), ("weak_form", 2, []), ("weak_form", 1, [])],
+    [("mutate_params", 0, ["sing", 3]), ("create", 1, ["hyp", "P"]), ("weak_form", 1, []), ("create", 2, ["hyp", "G"]), ("weak_form", 2, []), ("strong_form", 1, [])],
     # FMM operators: the interface cache is keyed by the order; clear_fmm_cache in between (counterexample of History_fmmunkeyed.cfg first)
     [("create", 1, ["fmm", "G"]), ("weak_form", 1, []), ("set_global", 0, ["reg", 1]), ("create", 2, ["fmm", "G"]), ("weak_form", 2, []), ("weak_form", 1, [])],
     [("create", 1, ["fmm", "P"]), ("mutate_params", 0, ["reg", 1]), ("weak_form", 1, []), ("clear_fmm", 0, []), ("create", 2, ["fmm", "G"]), ("weak_form", 2, [])],
